@@ -34,6 +34,24 @@ impl Handle {
             Handle::Boxed(b) => b.append_any(IdEntry(id)),
         }
     }
+    /// An append-on-drop guard around entry `id`, consumed as told: "drop" appends it, "into_entry" and "forget"
+    /// do not (and must give back the handle clone the guard holds).
+    pub fn guard(&self, id: u64, how: &str) {
+        fn consume<Q: EntrySink<IdEntry> + Clone>(q: &Q, id: u64, how: &str) {
+            let mut g = q.append_on_drop(IdEntry(0));
+            detsim::yield_point();
+            g.0 = id; // mutate through the guard
+            match how {
+                "into_entry" => drop(g.into_entry()),
+                "forget" => g.forget(),
+                _ => drop(g),
+            }
+        }
+        match self {
+            Handle::Typed(q) => consume(q, id, how),
+            Handle::Boxed(b) => consume(b, id, how),
+        }
+    }
     pub fn flush(&self) -> FlushWait {
         match self {
             Handle::Typed(q) => EntrySink::<IdEntry>::flush_async(q),
@@ -223,6 +241,19 @@ fn run_ops(sh: &Arc<Shared>, h: &Handle, thread: u64, ops: &[Value]) {
                     do_append_opt(sh, h, thread, &mut seq, true);
                 }
             }
+            "guard" => {
+                let how = js(op, "how", "drop");
+                if how == "drop" {
+                    let id = entry_id(thread, seq);
+                    seq += 1;
+                    sh.hist.log(K::AppendBegin { id });
+                    let r = std::panic::catch_unwind(std::panic::AssertUnwindSafe(|| h.guard(id, how)));
+                    sh.hist.log(K::AppendEnd { id, blocked: false, panicked: r.is_err() });
+                } else {
+                    // never appended: an id that no append uses (the stream must never see it)
+                    h.guard(entry_id(thread, 900_000 + seq), how);
+                }
+            }
             "flush" => do_flush(sh, h, op),
             "sleep" => detsim::sleep_ns(ju(op, "ns", 0)),
             "gate" => sh.ctl.gate.add(ji(op, "n", 1)),
@@ -293,7 +324,7 @@ fn run_ops(sh: &Arc<Shared>, h: &Handle, thread: u64, ops: &[Value]) {
 }
 
 fn count_appends(ops: &[Value]) -> u64 {
-    ops.iter().filter(|o| matches!(js(o, "op", ""), "append" | "append_bare")).map(|o| ju(o, "n", 1)).sum()
+    ops.iter().filter(|o| matches!(js(o, "op", ""), "append" | "append_bare") || (js(o, "op", "") == "guard" && js(o, "how", "drop") == "drop")).map(|o| ju(o, "n", 1)).sum()
 }
 
 fn count_bare_appends(plan: &Value) -> u64 {
@@ -907,7 +938,15 @@ pub fn gen_c01(rng: &mut Rng, tier: Tier) -> Value {
                 0 => ops.push(json!({"op":"flush","mode":"await"})),
                 1 => ops.push(json!({"op":"flush","mode":"cancel"})),
                 2 => ops.push(json!({"op":"sleep","ns": rel_sleep(rng, flush_interval)})),
-                3 => ops.push(json!({"op":"clone_churn"})),
+                3 => match rng.below(4) {
+                    0 => ops.push(json!({"op":"clone_churn"})),
+                    1 => {
+                        total += 1;
+                        ops.push(json!({"op":"guard","how":"drop"}));
+                    }
+                    2 => ops.push(json!({"op":"guard","how":"into_entry"})),
+                    _ => ops.push(json!({"op":"guard","how":"forget"})),
+                },
                 _ => {}
             }
         }
@@ -1881,6 +1920,17 @@ pub fn check_c05(plan: &Value, run: &QueueRun, d: &Digest) -> Option<Violation> 
             if !writer_finished {
                 return Some(Violation::new("writer_not_terminated", "the writer thread was still alive when the drop of the join handle returned"));
             }
+            if jb(plan, "sustained_drop", false) {
+                let clock_of = |seq: u64| run.hist.iter().find(|e| e.seq == seq).map(|e| e.clock).unwrap_or(0);
+                let took = clock_of(x).saturating_sub(clock_of(b));
+                let bound = ju(plan, "flush_interval_ns", 0) + ju(plan, "shutdown_timeout_ns", 0) + 130 * ju(plan, "next_cost_ns", 0);
+                if took > bound {
+                    return Some(Violation::new(
+                        "shutdown_unbounded_under_load",
+                        format!("a producer kept the queue non-empty; the drop of the join handle took {took} ns of simulated time, more than flush interval + shutdown timeout + 130 stream writes = {bound} ns"),
+                    ));
+                }
+            }
         }
     }
     if d.forget.is_some() {
@@ -1969,9 +2019,49 @@ fn gen_c05_stalled_drop(rng: &mut Rng) -> Value {
     })
 }
 
+/// The join handle is dropped while a producer keeps the queue non-empty (it never drains). The writer must still
+/// notice the shutdown at its next flush deadline and stop after at most `shutdown_timeout` of further draining:
+/// in simulated time (only stream writes cost time here) the drop returns within
+/// flush_interval + shutdown_timeout + 130 stream writes (the clock is looked at every 32 writes).
+fn gen_c05_sustained_drop(rng: &mut Rng) -> Value {
+    let next_cost = 1_000u64;
+    let cap = 8 + rng.below(25);
+    let target = 3 + rng.below(cap - 5);
+    let flush_interval = next_cost * (20 + rng.below(60));
+    let timeout = next_cost * (50 + rng.below(100));
+    let mut sched = gen_sched(rng, &SchedOpts { est_choices: 4_000, threads: 3, jump_max_ns: 0, stall_clock_max_ns: 0, max_steps: 900_000 });
+    sched["now_cost_ns"] = json!(0);
+    json!({
+        "scenario": "queue_shutdown",
+        "sched": sched,
+        "boxed": rng.chance(0.5),
+        "capacity": cap,
+        "flush_interval_ns": flush_interval,
+        "shutdown_timeout_ns": timeout,
+        "recorder": rng.chance(0.3),
+        "next_cost_ns": next_cost,
+        "gate": -1,
+        "script": [],
+        "report_res": "O",
+        "flush_fail": [],
+        "producers": [[{"op":"pressure","target": target, "max": 4_000, "others_in_flight": 0}]],
+        "main_ops": [{"op":"sleep","ns": next_cost * (10 + rng.below(200))}],
+        "pre_end": [],
+        "end": "drop",
+        "end_before_join": true,
+        "post": [],
+        "settle_ns": 0,
+        "lossy_shutdown": false,
+        "sustained_drop": true,
+    })
+}
+
 pub fn gen_c05(rng: &mut Rng, _tier: Tier) -> Value {
     if rng.chance(0.08) {
         return gen_c05_stalled_drop(rng);
+    }
+    if rng.chance(0.03) {
+        return gen_c05_sustained_drop(rng);
     }
     let forget = rng.chance(0.35);
     let lossy = !forget && rng.chance(0.12);
@@ -1994,7 +2084,15 @@ pub fn gen_c05(rng: &mut Rng, _tier: Tier) -> Value {
                     0 => ops.push(json!({"op":"flush","mode":"await"})),
                     1 => ops.push(json!({"op":"flush","mode": if rng.chance(0.4) { "hold" } else { "cancel" }})),
                     2 => ops.push(json!({"op":"sleep","ns": rel_sleep(rng, flush_interval)})),
-                    3 => ops.push(json!({"op":"clone_churn"})),
+                    3 => match rng.below(4) {
+                        0 => ops.push(json!({"op":"clone_churn"})),
+                        1 => {
+                            total += 1;
+                            ops.push(json!({"op":"guard","how":"drop"}));
+                        }
+                        2 => ops.push(json!({"op":"guard","how":"into_entry"})),
+                        _ => ops.push(json!({"op":"guard","how":"forget"})),
+                    },
                     _ => {}
                 }
             }
@@ -2086,11 +2184,19 @@ impl Scenario for QueueShutdown {
                 let lost = d.entries.values().filter(|e| e.ret.is_some() && e.next_begin.is_empty()).count() as u64;
                 r.probe("shutdown_timeout_hit_with_loss", (lost > 0) as u64);
             }
+            if jb(plan, "sustained_drop", false) {
+                // the queue was non-empty when the drop began
+                let b = d.drop_begin.unwrap_or(0);
+                let queued = d.entries.values().filter(|e| e.ret.map(|r| r < b).unwrap_or(false) && e.next_begin.first().map(|n| *n > b).unwrap_or(true)).count() as u64;
+                r.probe("join_handle_dropped_under_sustained_load", (queued > 0) as u64);
+            }
+            let guards = ja(plan, "producers").iter().flat_map(|p| p.as_array().cloned().unwrap_or_default()).filter(|o| js(o, "op", "") == "guard" && js(o, "how", "drop") != "drop").count() as u64;
+            r.probe("append_on_drop_guard_consumed_without_append", guards);
         }
         finish_report(r, out, run, plan, check_c05, true)
     }
     fn probes(&self) -> Vec<&'static str> {
-        vec!["append_racing_with_shutdown", "late_append_after_shutdown", "forget_path_runs", "shutdown_timeout_hit_with_loss"]
+        vec!["append_racing_with_shutdown", "late_append_after_shutdown", "forget_path_runs", "shutdown_timeout_hit_with_loss", "join_handle_dropped_under_sustained_load", "append_on_drop_guard_consumed_without_append"]
     }
     fn components(&self) -> Value {
         queue_components()
